@@ -40,6 +40,7 @@ import (
 	discovery "k8s.io/api/discovery/v1"
 	apierrors "k8s.io/apimachinery/pkg/api/errors"
 	metav1 "k8s.io/apimachinery/pkg/apis/meta/v1"
+	"k8s.io/apimachinery/pkg/labels"
 	"k8s.io/apimachinery/pkg/runtime/schema"
 	"k8s.io/apimachinery/pkg/types"
 	ctrl "sigs.k8s.io/controller-runtime"
@@ -54,6 +55,24 @@ const (
 )
 
 var vSpkNodeNames = []string{"n1", "n2"}
+
+// The two abstract services are two Kubernetes Services with the SAME name in different
+// namespaces: s1 = ns1/svc, s2 = ns2/svc.
+const vSpkSvcName = "svc"
+
+var vSpkSvcNs = map[string]string{"s1": "ns1", "s2": "ns2"}
+
+func vSpkKey(s string) string { return vSpkSvcNs[s] + "/" + vSpkSvcName }
+
+// vSpkAbsSvc maps a namespaced name back to the abstract service ("?ns/name" when unknown).
+func vSpkAbsSvc(key string) string {
+	for s := range vSpkSvcNs {
+		if vSpkKey(s) == key {
+			return s
+		}
+	}
+	return "?" + key
+}
 var vSpkSvcNames = []string{"s1", "s2"}
 
 // ---------------------------------------------------------------- abstract cluster state
@@ -125,7 +144,11 @@ func (c *vSpkCluster) clone() *vSpkCluster {
 // ---------------------------------------------------------------- rendering as Kubernetes objects
 
 func vSpkService(name string, s vSpkSvc) *v1.Service {
-	svc := &v1.Service{ObjectMeta: metav1.ObjectMeta{Name: name, Namespace: vSpkNS}}
+	ns, ok := vSpkSvcNs[name]
+	if !ok {
+		ns = vSpkNS // scratch objects of the harness (duels)
+	}
+	svc := &v1.Service{ObjectMeta: metav1.ObjectMeta{Name: vSpkSvcName, Namespace: ns}}
 	svc.Spec.Type = v1.ServiceTypeClusterIP
 	if s.Type == "LB" {
 		svc.Spec.Type = v1.ServiceTypeLoadBalancer
@@ -148,7 +171,7 @@ func vSpkSlices(name string, s vSpkSvc, rnd *rand.Rand) []discovery.EndpointSlic
 	eps := []discovery.Endpoint{}
 	for i, e := range s.Eps {
 		ready := e.Ready
-		ep := discovery.Endpoint{Addresses: []string{fmt.Sprintf("10.1.%d.%d", len(name), 10+i)}}
+		ep := discovery.Endpoint{Addresses: []string{fmt.Sprintf("10.1.%d.%d", int(name[len(name)-1]), 10+i)}}
 		ep.Conditions.Ready = &ready
 		if !ready {
 			f := false
@@ -162,8 +185,12 @@ func vSpkSlices(name string, s vSpkSvc, rnd *rand.Rand) []discovery.EndpointSlic
 	}
 	rnd.Shuffle(len(eps), func(i, j int) { eps[i], eps[j] = eps[j], eps[i] })
 	mk := func(k int, l []discovery.Endpoint) discovery.EndpointSlice {
-		return discovery.EndpointSlice{ObjectMeta: metav1.ObjectMeta{Name: name + "-" + strconv.Itoa(k), Namespace: vSpkNS,
-			Labels: map[string]string{discovery.LabelServiceName: name}}, AddressType: discovery.AddressTypeIPv4, Endpoints: l}
+		ns, ok := vSpkSvcNs[name]
+		if !ok {
+			ns = vSpkNS
+		}
+		return discovery.EndpointSlice{ObjectMeta: metav1.ObjectMeta{Name: name + "-" + strconv.Itoa(k), Namespace: ns,
+			Labels: map[string]string{discovery.LabelServiceName: vSpkSvcName}}, AddressType: discovery.AddressTypeIPv4, Endpoints: l}
 	}
 	if rnd.Intn(2) == 0 {
 		return []discovery.EndpointSlice{mk(0, eps)}
@@ -269,11 +296,12 @@ func (r vSpkReader) Get(_ context.Context, key client.ObjectKey, obj client.Obje
 	cl := r.w.cl
 	switch o := obj.(type) {
 	case *v1.Service:
-		s, ok := cl.Svcs[key.Name]
-		if !ok || s.Null || key.Namespace != vSpkNS {
+		a := vSpkAbsSvc(key.Namespace + "/" + key.Name)
+		s, ok := cl.Svcs[a]
+		if !ok || s.Null {
 			return apierrors.NewNotFound(vSpkSvcGR, key.Name)
 		}
-		vSpkService(key.Name, s).DeepCopyInto(o)
+		vSpkService(a, s).DeepCopyInto(o)
 		return nil
 	case *v1.Node:
 		n, ok := cl.Nodes[key.Name]
@@ -295,28 +323,46 @@ func (r vSpkReader) List(_ context.Context, list client.ObjectList, opts ...clie
 	rnd := r.w.rnd
 	switch l := list.(type) {
 	case *v1.ServiceList:
+		lo := &client.ListOptions{}
+		lo.ApplyOptions(opts)
 		l.Items = nil
 		names := kit.SortedKeys(cl.Svcs)
 		rnd.Shuffle(len(names), func(i, j int) { names[i], names[j] = names[j], names[i] })
 		for _, n := range names {
 			if s := cl.Svcs[n]; !s.Null {
-				l.Items = append(l.Items, *vSpkService(n, s))
+				svc := vSpkService(n, s)
+				if vSpkListed(lo, svc.Namespace, svc.Labels) {
+					l.Items = append(l.Items, *svc)
+				}
 			}
 		}
 	case *discovery.EndpointSliceList:
+		// every slice of the cluster, narrowed by whatever the caller asked for: the field index
+		// on the owning service (namespace/name), a namespace, a label selector
 		lo := &client.ListOptions{}
 		lo.ApplyOptions(opts)
 		l.Items = []discovery.EndpointSlice{}
-		if lo.FieldSelector == nil {
-			return fmt.Errorf("endpoint slices listed without the service index")
-		}
-		val, ok := lo.FieldSelector.RequiresExactMatch(epslices.SlicesServiceIndexName)
-		if !ok {
-			return fmt.Errorf("endpoint slices listed without the service index")
-		}
-		name := strings.TrimPrefix(val, vSpkNS+"/")
-		if s, ok := cl.Svcs[name]; ok && !s.Null && name != val {
-			l.Items = vSpkSlices(name, s, rnd)
+		names := kit.SortedKeys(cl.Svcs)
+		rnd.Shuffle(len(names), func(i, j int) { names[i], names[j] = names[j], names[i] })
+		for _, n := range names {
+			s := cl.Svcs[n]
+			if s.Null {
+				continue
+			}
+			if lo.FieldSelector != nil {
+				val, ok := lo.FieldSelector.RequiresExactMatch(epslices.SlicesServiceIndexName)
+				if !ok {
+					return fmt.Errorf("endpoint slices listed with an unknown field selector %s", lo.FieldSelector)
+				}
+				if val != vSpkKey(n) {
+					continue
+				}
+			}
+			for _, sl := range vSpkSlices(n, s, rnd) {
+				if vSpkListed(lo, sl.Namespace, sl.Labels) {
+					l.Items = append(l.Items, sl)
+				}
+			}
 		}
 	case *v1.NodeList:
 		l.Items = nil
@@ -326,7 +372,7 @@ func (r vSpkReader) List(_ context.Context, list client.ObjectList, opts ...clie
 			l.Items = append(l.Items, *vSpkNodeObj(n, cl.Nodes[n]))
 		}
 	case *v1.NamespaceList:
-		l.Items = []v1.Namespace{{ObjectMeta: metav1.ObjectMeta{Name: vSpkNS}}}
+		l.Items = []v1.Namespace{{ObjectMeta: metav1.ObjectMeta{Name: "ns1"}}, {ObjectMeta: metav1.ObjectMeta{Name: "ns2"}}}
 	case *v1.SecretList:
 		l.Items = nil
 	case *metallbv1beta1.BFDProfileList:
@@ -387,6 +433,17 @@ func (r vSpkReader) List(_ context.Context, list client.ObjectList, opts ...clie
 		return fmt.Errorf("unexpected List of %T", list)
 	}
 	return nil
+}
+
+// vSpkListed applies the namespace and label selector of a List call.
+func vSpkListed(lo *client.ListOptions, ns string, lbls map[string]string) bool {
+	if lo.Namespace != "" && lo.Namespace != ns {
+		return false
+	}
+	if lo.LabelSelector != nil && !lo.LabelSelector.Matches(labels.Set(lbls)) {
+		return false
+	}
+	return true
 }
 
 // ---------------------------------------------------------------- recording BGP sessions, memberlist
@@ -549,13 +606,13 @@ func vSpkNewWorld(id string, seed int64, cl *vSpkCluster, blk *kit.Block) *vSpkW
 	force := func() { w.reload = true }
 	w.sr = &controllers.ServiceReconciler{Client: rd, Logger: log.NewNopLogger(), Endpoints: true, Reload: w.relC,
 		Handler: func(l log.Logger, name string, svc *v1.Service, eps []discovery.EndpointSlice) controllers.SyncState {
-			w.handled = append(w.handled, kit.SvcOfKey(name))
-			w.since[kit.SvcOfKey(name)] = true
+			w.handled = append(w.handled, vSpkAbsSvc(name))
+			w.since[vSpkAbsSvc(name)] = true
 			st := c.SetBalancer(l, name, svc, eps)
 			if st == controllers.SyncStateError {
-				w.errS[kit.SvcOfKey(name)] = true
+				w.errS[vSpkAbsSvc(name)] = true
 			} else {
-				delete(w.errS, kit.SvcOfKey(name))
+				delete(w.errS, vSpkAbsSvc(name))
 			}
 			return st
 		}}
@@ -658,7 +715,7 @@ func (w *vSpkWorld) exec(a vSpkAct) (skipped bool) {
 			return true
 		}
 		delete(w.svcQ, a.S)
-		if _, err := w.sr.Reconcile(ctx, vSpkReq(vSpkNS, a.S)); err != nil {
+		if _, err := w.sr.Reconcile(ctx, vSpkReq(vSpkSvcNs[a.S], vSpkSvcName)); err != nil {
 			w.svcQ[a.S] = true
 		}
 	case "DeliverNode":
@@ -762,7 +819,7 @@ func vSpkAnnouncements(c *controller) (l2 []vSpkL2Obs, peers map[string]vSpkPeer
 				ifs = append(ifs, vSpkIfAbstract(i))
 			}
 			sort.Strings(ifs)
-			l2 = append(l2, vSpkL2Obs{S: kit.SvcOfKey(name), Ip: kit.SpkAbs(a.IP), All: a.All, Ifs: ifs})
+			l2 = append(l2, vSpkL2Obs{S: vSpkAbsSvc(name), Ip: kit.SpkAbs(a.IP), All: a.All, Ifs: ifs})
 		}
 	}
 	sort.Slice(l2, func(i, j int) bool { return l2[i].S+strconv.Itoa(l2[i].Ip) < l2[j].S+strconv.Itoa(l2[j].Ip) })
@@ -782,7 +839,7 @@ func vSpkAnnouncements(c *controller) (l2 []vSpkL2Obs, peers map[string]vSpkPeer
 	rep = map[string][]string{}
 	for _, s := range vSpkSvcNames {
 		l := []string{}
-		for p := range bc.PeersForService(vSpkNS + "/" + s) {
+		for p := range bc.PeersForService(vSpkKey(s)) {
 			l = append(l, p)
 		}
 		sort.Strings(l)
@@ -828,7 +885,7 @@ func (w *vSpkWorld) observe(i int, raw json.RawMessage, op string, skipped bool)
 		for _, ip := range l {
 			x = append(x, kit.SpkAbs(ip))
 		}
-		ips[kit.SvcOfKey(name)] = x
+		ips[vSpkAbsSvc(name)] = x
 	}
 	annB, annL := vSpkAnnSets(c)
 	closed := 0
@@ -868,12 +925,12 @@ func vSpkAnnSets(c *controller) (annB, annL []string) {
 	annB, annL = []string{}, []string{}
 	for name, ok := range c.announced[config.BGP] {
 		if ok {
-			annB = append(annB, kit.SvcOfKey(name))
+			annB = append(annB, vSpkAbsSvc(name))
 		}
 	}
 	for name, ok := range c.announced[config.Layer2] {
 		if ok {
-			annL = append(annL, kit.SvcOfKey(name))
+			annL = append(annL, vSpkAbsSvc(name))
 		}
 	}
 	sort.Strings(annB)
